@@ -5,7 +5,7 @@ import re
 import numpy as np
 from hypothesis import strategies as st
 
-from .. import drive, gen
+from .. import drive, gen, units
 from ..runner import Outcome, Part
 
 ID = "C15"
@@ -57,7 +57,13 @@ class Recorder(object):
 
 def run(spec):
     o = Outcome()
-    with drive.Case(spec) as c:
+    u = spec.get("_units") or {"length": "m", "temperature": "kelvin"}
+    with drive.Case({k: v for k, v in spec.items() if k != "_units"}) as c0:
+        c0.resolve_length()
+        si = c0.spec
+    spec_u = units.convert(si, u["length"], u["temperature"], "kg", "s")
+    o.classes["units"] = "%s/%s" % (u["length"], u["temperature"])
+    with drive.Case(spec_u) as c:
         r = c.setup(write_output=True)
         recs = [Recorder(a) for a in r.assemblies]
         zs = {}
@@ -114,7 +120,7 @@ def run(spec):
         txt = open(out).read() if os.path.exists(out) else ""
         o.classes["has_output"] = bool(txt)
         if txt:
-            check_tables(o, txt, r, recs)
+            check_tables(o, txt, r, recs, 1.0 / units.LENGTH[u["length"]], lambda T: units.t_from_k(T, u["temperature"]))
         o.classes.update({"n_asm": len(r.assemblies), "pin_model": any("pin" in a._peak for a in r.assemblies),
                           "max_regions": max(len(a.region) for a in r.assemblies),
                           "peak_pos": "top" if any(abs(z - L) <= 1e-9 for z, _ in recs[0].cool[1]) else "below_top"})
@@ -159,7 +165,7 @@ def printed(tok, want):
     return abs(v - want) <= 0.51 * 10.0 ** (-dec) + 1e-9 * abs(want)
 
 
-def check_tables(o, txt, r, recs):
+def check_tables(o, txt, r, recs, Lc=1.0, Tc=lambda T: T):
     rows = table_rows(txt, "COOLANT TEMPERATURE SUMMARY")
     if not o.check(rows is not None and len(rows) == len(r.assemblies), "coolant_table_missing",
                    "rows %s" % (None if rows is None else len(rows))):
@@ -167,12 +173,12 @@ def check_tables(o, txt, r, recs):
     for row, a, rec in zip(rows, r.assemblies, recs):
         # Asm Name Power Flow Bulk-outlet Peak-outlet Peak-total Peak+Unc Peak-height
         o.check(row[1] == a.name, "coolant_table_order", "%s vs %s" % (row[1], a.name))
-        want = {"bulk_outlet": (4, float(a.avg_coolant_temp)),
-                "peak_outlet": (5, float(np.max(a.active_region.temp["coolant_int"]))),
-                "peak_total": (6, rec.cool[0])}
+        want = {"bulk_outlet": (4, Tc(float(a.avg_coolant_temp))),
+                "peak_outlet": (5, Tc(float(np.max(a.active_region.temp["coolant_int"])))),
+                "peak_total": (6, Tc(rec.cool[0]))}
         for name, (col, w) in want.items():
             o.check(printed(row[col], w), "coolant_table_" + name, "asm %s: %.6f printed as %s" % (a.name, w, row[col]))
-        o.check(any(printed(row[8], z) for z, _ in rec.cool[1]), "coolant_table_peak_height",
+        o.check(any(printed(row[8], z * Lc) for z, _ in rec.cool[1]), "coolant_table_peak_height",
                 "asm %s: printed %s, attained at %s" % (a.name, row[8], [round(z, 6) for z, _ in rec.cool[1]][:3]))
     rows = table_rows(txt, "DUCT TEMPERATURE SUMMARY")
     if o.check(rows is not None, "duct_table_missing"):
@@ -188,8 +194,8 @@ def check_tables(o, txt, r, recs):
                 toks = [t for t in re.split(r"\s+", re.sub(r"\([^)]*\)", " ", line)) if t]
                 j = len(rec.duct) - nd_last + d
                 val, where = rec.duct[j]
-                o.check(printed(toks[-2], val), "duct_table_peak", "asm %s duct %d: %.6f printed as %s" % (a.name, d, val, toks[-2]))
-                o.check(any(printed(toks[-1], z) for z, _ in where), "duct_table_peak_height",
+                o.check(printed(toks[-2], Tc(val)), "duct_table_peak", "asm %s duct %d: %.6f printed as %s" % (a.name, d, val, toks[-2]))
+                o.check(any(printed(toks[-1], z * Lc) for z, _ in where), "duct_table_peak_height",
                         "asm %s duct %d: printed %s" % (a.name, d, toks[-1]))
                 avg = a.active_region.temp["duct_mw"][d]
     pins = [(a, rec) for a, rec in zip(r.assemblies, recs) if "pin" in a._peak]
@@ -202,9 +208,9 @@ def check_tables(o, txt, r, recs):
             # ID Name Pin Height Power Cool CladOD CladMW CladID FuelOD FuelCL ...
             val = rec.pin[key][0]
             col = {"clad_mw": 7, "fuel_cl": 10}[key]
-            o.check(printed(row[col], val), "pin_table_peak_" + key, "asm %s: %.6f printed as %s" % (a.name, val, row[col]))
+            o.check(printed(row[col], Tc(val)), "pin_table_peak_" + key, "asm %s: %.6f printed as %s" % (a.name, val, row[col]))
             prof = a._peak["pin"][key][2]
-            okp = all(printed(row[5 + j], prof[3 + j]) for j in range(6))
+            okp = all(printed(row[5 + j], Tc(prof[3 + j])) for j in range(6)) and printed(row[3], prof[1] * Lc)
             o.check(okp, "pin_table_profile_" + key, "asm %s: %s vs %s" % (a.name, row[5:11], [round(x, 2) for x in prof[3:]]))
             o.check(int(row[2]) == int(prof[2]), "pin_table_pin_" + key)
 
@@ -226,6 +232,8 @@ def cases(draw, q):
             mats = {"%s_%s" % (name.lower(), kk): v for kk, v in mats.items()}
             pm["pin_material"] = ["%s_%s" % (name.lower(), kk) for kk in pm["pin_material"]]
             gen.attach_pin_model(spec, name, pm, mats, fuel=False)
+    spec["_units"] = {"length": draw(st.sampled_from(["m", "m", "cm", "mm", "in", "ft"])),
+                      "temperature": draw(st.sampled_from(["kelvin", "kelvin", "celsius", "fahrenheit"]))}
     return spec
 
 
